@@ -18,6 +18,24 @@ RULES = {
 REN = "dns.renderer.Renderer"
 
 
+def check_rollback_purge(model, rep, rule):
+    """After a rollback no compression-table entry may point at or beyond the truncation offset (shared by C08 R-08.2, C03 R-03.3 and C01 R-01.4:
+    a surviving entry makes a later name a pointer to bytes that no longer exist or to itself)."""
+    ro = pat.canon_func(model.func(f"{REN}._rollback"), ["__keys_to_delete = []", "for (__k, __v) in self.compress.items():", "for __k in __keys_to_delete:\n    del self.compress[__k]"])
+    t = " ".join(src(ro.node).split())
+    rep.check("self.output.seek(where) self.output.truncate()" in t, rule, ro.qualname, where(ro, ro.node), "buffer truncated at the rollback point", "buffer is not truncated at the rollback point", stmt="truncate")
+    cmp_ = [n for n in ast.walk(ro.node) if isinstance(n, ast.If) and len(atoms(normalise_compare(n.test))) == 1 and "where" in (atoms(normalise_compare(n.test))[0][2], atoms(normalise_compare(n.test))[0][0])]
+    if len(cmp_) != 1:
+        rep.blind(rule, ro.qualname, where(ro, ro.node), "offset comparison in _rollback not found", stmt="drop-entries")
+    else:
+        lhs, op, rhs = atoms(normalise_compare(cmp_[0].test))[0]
+        if lhs == "where":
+            lhs, rhs, op = rhs, lhs, {"<": ">", "<=": ">=", ">": "<", ">=": "<="}.get(op, op)
+        rep.check(op == ">=" and lhs == "v", rule, ro.qualname, where(ro, cmp_[0]), "entries with offset >= where are dropped",
+                  f"entries are dropped when `{lhs} {op} where`: an entry pointing exactly at the removed record set survives and later names are compressed against bytes that no longer exist", stmt="drop-entries")
+    return ro
+
+
 def check_padded_opt(model, rep, rule):
     """The OPT that add_opt rebuilds in order to append the padding option keeps everything of the original (flags, payload size,
     options), and the renderer remembers that it padded whenever the padding branch ran - with zero pad octets too."""
@@ -106,18 +124,8 @@ def run(model, rep, tier):
         and cfg.edge_dominated(rs[0].id, {(tt[0].id, "t")}) and cfg.dominated_by_set(tt[0].id, [ys[0].id])
     rep.check(okk, "R-08.2", tr.qualname, where(tr, tr.node), "start taken before the body; after it `tell() > max_size` => _rollback(start) then TooBig",
               "_track_size no longer (records the start, compares tell() > max_size after the body, rolls back to start, raises TooBig)", stmt="track-shape")
-    ro = pat.canon_func(model.func(f"{REN}._rollback"), ["__keys_to_delete = []", "for (__k, __v) in self.compress.items():", "for __k in __keys_to_delete:\n    del self.compress[__k]"])
+    ro = check_rollback_purge(model, rep, "R-08.2")
     t = " ".join(src(ro.node).split())
-    rep.check("self.output.seek(where) self.output.truncate()" in t, "R-08.2", ro.qualname, where(ro, ro.node), "buffer truncated at the rollback point", "buffer is not truncated at the rollback point", stmt="truncate")
-    cmp_ = [n for n in ast.walk(ro.node) if isinstance(n, ast.If) and len(atoms(normalise_compare(n.test))) == 1 and "where" in (atoms(normalise_compare(n.test))[0][2], atoms(normalise_compare(n.test))[0][0])]
-    if len(cmp_) != 1:
-        rep.blind("R-08.2", ro.qualname, where(ro, ro.node), "offset comparison in _rollback not found", stmt="drop-entries")
-    else:
-        lhs, op, rhs = atoms(normalise_compare(cmp_[0].test))[0]
-        if lhs == "where":
-            lhs, rhs, op = rhs, lhs, {"<": ">", "<=": ">=", ">": "<", ">=": "<="}.get(op, op)
-        rep.check(op == ">=" and lhs == "v", "R-08.2", ro.qualname, where(ro, cmp_[0]), "entries with offset >= where are dropped",
-                  f"entries are dropped when `{lhs} {op} where`: an entry pointing exactly at the removed record set survives and later names are compressed against bytes that no longer exist", stmt="drop-entries")
     rep.check("for (k, v) in self.compress.items():" in t.replace("for k, v in", "for (k, v) in") and "for k in keys_to_delete: del self.compress[k]" in t, "R-08.2", ro.qualname, where(ro, ro.node),
               "all entries are examined, matching ones deleted after the scan", "_rollback no longer scans the whole table", stmt="scan-all")
 
